@@ -169,7 +169,14 @@ impl NodeDrive {
                             value.key_disk_addr,
                         );
                     } else {
-                        log::debug!("To reclame_space nothing need to be done on delete");
+                        // The rewritten files do not contain the key any more: forget the
+                        // tombstone, its remembered offset points into the old key file
+                        let mut map = db.map.write().unwrap();
+                        if let Some(current) = map.get(&key) {
+                            if current.state == ValueStatus::Deleted {
+                                map.remove(&key);
+                            }
+                        }
                     }
                 }
             }
